@@ -13,7 +13,7 @@ from __future__ import annotations
 import ast
 from typing import Optional, Iterable
 
-from .core import Program, Func, PJS, UNK, own_nodes, stmt_text, const_str
+from .core import Program, Func, PJS, UNK, PJS_ATTRS, own_nodes, stmt_text, const_str
 from .cfg import cfg_of, CFG, CNode
 
 MAXLEN = 8
@@ -104,9 +104,14 @@ class Path:
 
 
 class Effect:
-    __slots__ = ('path', 'kind', 'func', 'lineno', 'text', 'chain', 'node', 'ptype', 'sure', 'op')
+    __slots__ = ('path', 'kind', 'func', 'lineno', 'text', 'chain', 'node', 'ptype', 'sure', 'op',
+                 'must', 'cmust', 'src')
 
-    def __init__(self, path, kind, func, lineno, text, chain=(), node=None, ptype=UNK, sure=True, op=''):
+    def __init__(self, path, kind, func, lineno, text, chain=(), node=None, ptype=UNK, sure=True, op='',
+                 must=False, cmust=True, src=None):
+        self.must = must        # performed on every normally-returning path of the summarised function
+        self.cmust = cmust      # (instantiated effects) performed on every normal path of the callee
+        self.src = src          # ast node of the primitive (statement or call), in ITS function
         self.sure = sure        # the receiver resolved to exactly one path at every level
         self.op = op            # primitive operation name (append, remove, del, ...)
         self.path = path
@@ -180,7 +185,7 @@ class Analyzer:
         field_alias: dict[tuple, set] = {}
 
         def emit(path: Path, kind, lineno, text, chain=(), node=None, func=None, ptype=UNK,
-                 sure=None, op=''):
+                 sure=None, op='', cmust=None, src=None):
             if path.root[0] in ('fresh',):
                 return
             if sure is None:
@@ -189,27 +194,46 @@ class Analyzer:
                 sure = sure and R.last_sure
             if len(chain) > 4:
                 chain = chain[:2] + chain[-2:]
-            e = Effect(path, kind, func or f.short, lineno, text, chain, node, ptype, sure, op)
+            here = node is not None and cfg.postdominates(node, cfg.entry)
+            if cmust is None:       # primitive effect of this function
+                must, cm = here, True
+            else:
+                must, cm = (here and cmust), cmust
+            e = Effect(path, kind, func or f.short, lineno, text, chain, node, ptype, sure, op,
+                       must, cm, src)
             effects.setdefault(e.key() + (id(node),), e)
 
         def owner_type(expr) -> str:
             """static class that owns the attribute expr (for field disambiguation)"""
+            while isinstance(expr, ast.Subscript):
+                expr = expr.value
+            if isinstance(expr, ast.Call) and isinstance(expr.func, ast.Attribute) \
+                    and expr.func.attr in ('get', 'setdefault'):
+                expr = expr.func.value
             if isinstance(expr, ast.Attribute):
                 bt = env.type_of(expr.value)
                 if bt[0] == 'cls':
                     return bt[1]
                 if bt == PJS:
                     return 'pjs'
+                if bt == UNK and expr.attr not in PJS_ATTRS:
+                    # fallback: field name unique among the classes visible in this module
+                    mod = f.module
+                    cands = [c.name for c in self.prog.classes.values()
+                             if expr.attr in c.fields and (c.module is mod or c.name in mod.imports)]
+                    if len(cands) == 1:
+                        return cands[0]
             return ''
 
         def do_target(tgt, node, st, kind_attr='rebind'):
             if isinstance(tgt, ast.Attribute):
                 for p in R.tpaths(tgt.value, node):
                     emit(p.add(tgt.attr), kind_attr, st.lineno, stmt_text(st), node=node,
-                         ptype=owner_type(tgt))
+                         ptype=owner_type(tgt), src=st)
             elif isinstance(tgt, ast.Subscript):
                 for p in R.tpaths(tgt.value, node):
-                    emit(p, 'item-set', st.lineno, stmt_text(st), node=node, ptype=owner_type(tgt.value))
+                    emit(p, 'item-set', st.lineno, stmt_text(st), node=node, ptype=owner_type(tgt.value),
+                         src=st)
             elif isinstance(tgt, (ast.Tuple, ast.List)):
                 for e in tgt.elts:
                     do_target(e, node, st)
@@ -257,7 +281,7 @@ class Analyzer:
                 for t in n.targets:
                     if isinstance(t, ast.Subscript):
                         for p in R.tpaths(t.value, node):
-                            emit(p, 'item-del', n.lineno, stmt_text(n), node=node, op='del',
+                            emit(p, 'item-del', n.lineno, stmt_text(n), node=node, op='del', src=n,
                                  ptype=owner_type(t.value))
                     elif isinstance(t, ast.Attribute):
                         for p in R.tpaths(t.value, node):
@@ -326,7 +350,8 @@ class Analyzer:
             if k is not None:
                 # dict.update / set.update / list.extend ... all 'add'
                 for p in R.tpaths(recv, node):
-                    emit(p, k, call.lineno, stmt_text(call), node=node, ptype=owner_type(recv), op=name)
+                    emit(p, k, call.lineno, stmt_text(call), node=node, ptype=owner_type(recv), op=name,
+                         src=call)
             if final:
                 self.resolved_calls += 1
             return
@@ -385,7 +410,7 @@ class Analyzer:
                             base = p.add(ELEM)
                         np = base.extend(e.path.steps)
                         emit(np, e.kind, e.lineno, e.text, e.chain + ((f.short, m.short, call.lineno),),
-                             node=node, func=e.func, ptype=e.ptype, sure=e.sure, op=e.op)
+                             node=node, func=e.func, ptype=e.ptype, sure=e.sure, op=e.op, cmust=e.must, src=e.src)
 
     def arg_map(self, call: ast.Call, callee: Func, recv_expr=None, self_fresh=False):
         """formal parameter name -> actual expression (or None for fresh self / default)."""
@@ -431,7 +456,7 @@ class Analyzer:
             if not e.path.is_param:
                 if e.path.root[0] == 'global':
                     emit(e.path, e.kind, e.lineno, e.text, e.chain + ((f.short, callee.short, call.lineno),),
-                         node=node, func=e.func, ptype=e.ptype, sure=e.sure, op=e.op)
+                         node=node, func=e.func, ptype=e.ptype, sure=e.sure, op=e.op, cmust=e.must, src=e.src)
                 continue
             formal = e.path.root[1]
             bases = actual_paths.get(formal)
@@ -454,11 +479,11 @@ class Analyzer:
                                 np = ab.extend(ap.steps + steps[1:])
                                 emit(np, e.kind, e.lineno, e.text,
                                      e.chain + ((f.short, callee.short, call.lineno),),
-                                     node=node, func=e.func, ptype=e.ptype, sure=e.sure, op=e.op)
+                                     node=node, func=e.func, ptype=e.ptype, sure=e.sure, op=e.op, cmust=e.must, src=e.src)
                     continue
                 np = b.extend(steps)
                 emit(np, e.kind, e.lineno, e.text, e.chain + ((f.short, callee.short, call.lineno),),
-                     node=node, func=e.func, ptype=e.ptype, sure=e.sure, op=e.op)
+                     node=node, func=e.func, ptype=e.ptype, sure=e.sure, op=e.op, cmust=e.must, src=e.src)
 
     # ------------------------------------------------------------------ call graph
     def callees(self, f: Func) -> list[Func]:
